@@ -11,6 +11,13 @@ open Qentem.StrToNum Qentem.Round Qentem.Generated.StrToNum
 
 theorem decVal_nil : decVal [] = 0 := rfl
 
+theorem valFrac_zero (k : Nat) (eneg : Bool) (f : Nat) : (valFrac 0 k eneg f).1 = 0 := by
+  unfold valFrac
+  cases eneg
+  · simp only [Bool.false_eq_true, if_false]
+    split <;> simp
+  · simp
+
 /-- what follows the mantissa: the end of the text or the exponent marker -/
 theorem stop_of_expPart (c : List Nat) (e Q : Nat) (EP es ks : List Nat) (hEP : ExpPart EP es ks)
     (hEPu : unitsAt c e Q EP) (hQ : Q + EP.length = e) :
@@ -494,5 +501,172 @@ theorem good_int_only (c : List Nat) (o e : Nat) (sign : List Nat) (d1 : Nat) (x
     have := good_int_long c o e sign d1 x18 rest [] [] [] [] [] hs h1 hx18 hl18 hrest (by intro y hy; cases hy)
       (Or.inl ⟨rfl, rfl⟩) (Or.inl ⟨rfl, rfl, rfl⟩) (by simpa using hu) (by simp at hQ ⊢; omega) hbound hreal
     simpa [valFrac, decVal] using this
+
+/-- `[+-]? 0 [. F] [exp]` — a leading zero digit: zero values and the fraction-only path -/
+theorem good_zero_lead (c : List Nat) (o e : Nat) (sign zs G F DF EP es ks : List Nat)
+    (hs : sign = [] ∨ sign = [43] ∨ sign = [45]) (hz : ∀ z ∈ zs, z = 48) (hG : AllDigits G)
+    (hGh : G = [] ∨ ∃ g1 gt, G = g1 :: gt ∧ isNonZeroDigit g1 = true) (hFeq : F = zs ++ G)
+    (hDF : (DF = [] ∧ F = []) ∨ (DF = 46 :: F ∧ F ≠ [])) (hEP : ExpPart EP es ks)
+    (hu : unitsAt c e o (sign ++ [48] ++ DF ++ EP))
+    (hQ : o + sign.length + 1 + DF.length + EP.length = e) (hbound : e ≤ 99999000) :
+    NumGood (decide (sign = [45])) (valFrac (decVal (48 :: F)) (decVal ks) (decide (es = [45])) F.length).1
+      (valFrac (decVal (48 :: F)) (decVal ks) (decide (es = [45])) F.length).2 e (strToNum c o e) := by
+  have he : e < 2 ^ 32 := by omega
+  have hA := (unitsAt_append c e (sign ++ [48] ++ DF) EP o).1 hu
+  have hB := (unitsAt_append c e (sign ++ [48]) DF o).1 hA.1
+  have hu1 : unitsAt c e o (sign ++ [48]) := hB.1
+  have hu' := (unitsAt_append c e sign [48] o).1 hu1
+  have hDFu : unitsAt c e (o + sign.length + 1) DF := by
+    have := hB.2; simp only [List.length_append, List.length_cons, List.length_nil] at this
+    rw [show o + sign.length + 1 = o + (sign.length + (0 + 1)) by omega]; exact this
+  have hEPu : unitsAt c e (o + sign.length + 1 + DF.length) EP := by
+    have := hA.2; simp only [List.length_append, List.length_cons, List.length_nil] at this
+    rw [show o + sign.length + 1 + DF.length = o + (sign.length + (0 + 1) + DF.length) by omega]; exact this
+  have hzero : decVal (48 :: F) = decVal G := by
+    rw [hFeq, show 48 :: (zs ++ G) = (48 :: zs) ++ G by simp]
+    exact decVal_zeros (48 :: zs) G (fun y hy => by
+      rcases List.mem_cons.1 hy with h | h
+      · exact h
+      · exact hz y h)
+  rcases hDF with ⟨rfl, hF0⟩ | ⟨rfl, hF0⟩
+  · -- no dot
+    subst hF0
+    simp only [List.length_nil, Nat.add_zero, List.append_nil] at hEPu hQ hu
+    rcases hEP with ⟨rfl, rfl, rfl⟩ | ⟨m, hmE, rfl, hes, hks, hk0⟩
+    · -- the numeral `0`
+      simp only [List.length_nil, Nat.add_zero, List.append_nil] at hQ hu
+      obtain ⟨z1, z2, z3⟩ := int_exact_zero c o e he
+      rcases hs with rfl | rfl | rfl
+      · right
+        have := z1 (by simpa using hu.1) (Or.inl (by simp at hQ; omega))
+        refine ⟨_, this, Or.inl rfl, ?_⟩
+        simp [valFrac, decVal]
+      · right
+        have := z2 (by simpa using hu) (Or.inl (by simp at hQ; omega))
+        refine ⟨_, this, Or.inl rfl, ?_⟩
+        simp [valFrac, decVal]
+      · left
+        have := z3 (by simpa using hu) (Or.inl (by simp at hQ; omega))
+        rw [this]
+        have hg := good_zero true 1 e
+        have he2 : o + 2 = e := by simp at hQ; omega
+        simpa [valFrac, decVal, he2] using hg
+    · left
+      simp only [List.length_cons, List.length_append] at hQ
+      have hu2 : unitsAt c e o (sign ++ [48, m] ++ (es ++ ks)) := by
+        have e1 : sign ++ [48, m] ++ (es ++ ks) = sign ++ [48] ++ m :: (es ++ ks) := by simp
+        rw [e1]; exact hu
+      rw [zero_exp c o e sign m es ks he hs hmE hes hks hk0 hu2 (Or.inl (by omega))]
+      have hg := good_zero (decide (sign = [45])) ((valFrac (decVal ([48] : List Nat)) (decVal ks) (decide (es = [45])) 0).2) e
+      have hv0 : (valFrac (decVal ([48] : List Nat)) (decVal ks) (decide (es = [45])) 0).1 = 0 := by
+        rw [show decVal ([48] : List Nat) = 0 by decide]; exact valFrac_zero _ _ _
+      rw [show o + sign.length + 2 + es.length + ks.length = e by omega]
+      simpa [hv0] using hg
+  · left
+    have hFu : unitsAt c e (o + sign.length + 1 + 1) F := hDFu.2
+    have hdotu : rd c e (o + sign.length + 1) = some 46 := hDFu.1
+    simp only [List.length_cons] at hEPu hQ
+    have hFlen : F.length = zs.length + G.length := by rw [hFeq]; simp
+    have hzG := (unitsAt_append c e zs G (o + sign.length + 1 + 1)).1 (by rw [← hFeq]; exact hFu)
+    rcases hGh with hGnil | ⟨g1, gt, hGeq, hg1⟩
+    · -- zero value `0.000…`
+      subst hGnil
+      simp only [List.append_nil] at hFeq
+      subst hFeq
+      have hg := good_zero (decide (sign = [45]))
+        ((valFrac (decVal (48 :: F)) (decVal ks) (decide (es = [45])) F.length).2) e
+      have hv0 : (valFrac (decVal (48 :: F)) (decVal ks) (decide (es = [45])) F.length).1 = 0 := by
+        rw [hzero, decVal_nil]; exact valFrac_zero _ _ _
+      rw [hv0]
+      rcases hEP with ⟨rfl, rfl, rfl⟩ | ⟨m, hmE, rfl, hes, hks, hk0⟩
+      · simp only [List.length_nil, Nat.add_zero, List.append_nil] at hQ hu
+        have hu2 : unitsAt c e o (sign ++ ([48, 46] ++ F)) := by
+          have e1 : sign ++ ([48, 46] ++ F) = sign ++ [48] ++ 46 :: F := by simp
+          rw [e1]; exact hu
+        rw [zero_dot_zeros_end c o e sign F he hs hz hF0 hu2 (Or.inl (by omega))]
+        rw [show o + sign.length + 2 + F.length = e by omega]
+        exact hg
+      · simp only [List.length_cons, List.length_append] at hQ
+        have hu2 : unitsAt c e o (sign ++ ([48, 46] ++ F) ++ [m] ++ (es ++ ks)) := by
+          have e1 : sign ++ ([48, 46] ++ F) ++ [m] ++ (es ++ ks) = sign ++ [48] ++ 46 :: F ++ m :: (es ++ ks) := by simp
+          rw [e1]; exact hu
+        rw [zero_dot_zeros_exp c o e sign F m es ks he hs hz hF0 hmE hes hks hk0 hu2 (Or.inl (by omega))]
+        rw [show o + sign.length + 2 + F.length + 1 + es.length + ks.length = e by omega]
+        exact hg
+    · -- fraction-only path with significant digits `G`
+      subst hGeq
+      have hgt : AllDigits gt := fun y hy => hG y (by simp [hy])
+      rw [strToNum_after_sign c o e sign 48 hs hu1 (by decide)]
+      rw [hzero, hFlen]
+      have hGu : unitsAt c e (o + sign.length + 2 + zs.length) (g1 :: gt) := by
+        have := hzG.2
+        rw [show o + sign.length + 1 + 1 + zs.length = o + sign.length + 2 + zs.length by omega] at this; exact this
+      have hEPu2 : unitsAt c e (o + sign.length + 2 + zs.length + 1 + gt.length) EP := by
+        rw [show o + sign.length + 2 + zs.length + 1 + gt.length = o + sign.length + 1 + (F.length + 1) by
+          rw [hFlen]; simp; omega]
+        exact hEPu
+      have hQ2 : o + sign.length + 2 + zs.length + 1 + gt.length + EP.length = e := by
+        rw [hFlen] at hQ; simp at hQ; omega
+      have hscanu : unitsAt c e (o + sign.length) ([48, 46] ++ zs ++ g1 :: gt) := by
+        have hall := hu'.2
+        refine (unitsAt_append c e ([48, 46] ++ zs) (g1 :: gt) (o + sign.length)).2 ⟨
+          (unitsAt_append c e [48, 46] zs (o + sign.length)).2 ⟨⟨hall.1, hdotu, trivial⟩, by simpa using hzG.1⟩, ?_⟩
+        simp only [List.length_append, List.length_cons, List.length_nil]
+        rw [show o + sign.length + (0 + 1 + 1 + zs.length) = o + sign.length + 2 + zs.length by omega]; exact hGu
+      by_cases hshort : gt.length ≤ 17
+      · have hst := stop_of_expPart c e _ EP es ks hEP hEPu2 hQ2
+        rw [afterSign_small c e _ (o + sign.length) zs g1 gt he hz hg1 hgt hshort hscanu hst]
+        have := glueD c e (decide (sign = [45])) (o + sign.length + 2 + zs.length + 1 + gt.length)
+          (o + sign.length + 2 + zs.length) true (o + sign.length + 1) (g1 :: gt) g1 gt [] EP es ks (1 + gt.length)
+          (1 + gt.length + zs.length) he rfl hg1 hG (by simp; omega) (by omega) (by intro y hy; cases hy) trivial hEP
+          (by simpa using hEPu2) (by simpa using hQ2)
+          (by simp only [b2n, Bool.not_true, Bool.false_and, Bool.false_eq_true, if_false]
+              rw [sub32_sub32 _ _ 0 (by omega) (by omega)]; omega)
+          (by simp only [if_true]
+              rw [sub32_sub32 _ _ 1 (by omega) (by omega), add32_eq _ _ (by omega)]; omega)
+          (by simp; omega) (Or.inl (by simp))
+        have e1 : 1 + gt.length + zs.length + ([] : List Nat).length = zs.length + (g1 :: gt).length := by simp; omega
+        rw [e1] at this
+        simpa using this
+      · obtain ⟨ys, R, hgteq, hyl⟩ : ∃ ys R, gt = ys ++ R ∧ ys.length = 18 :=
+          ⟨gt.take 18, gt.drop 18, (List.take_append_drop _ _).symm, by rw [List.length_take]; omega⟩
+        subst hgteq
+        have hys : AllDigits ys := fun y hy => hgt y (by simp [hy])
+        have hR : AllDigits R := fun y hy => hgt y (by simp [hy])
+        have hKu : unitsAt c e (o + sign.length) ([48, 46] ++ zs ++ g1 :: ys) := by
+          have e1 : [48, 46] ++ zs ++ g1 :: (ys ++ R) = ([48, 46] ++ zs ++ g1 :: ys) ++ R := by simp
+          rw [e1] at hscanu
+          exact ((unitsAt_append c e _ R (o + sign.length)).1 hscanu).1
+        have hRu : unitsAt c e (o + sign.length + 2 + zs.length + 1 + 18) R := by
+          have hsp := (unitsAt_append c e (g1 :: ys) R (o + sign.length + 2 + zs.length)).1 (by simpa using hGu)
+          have := hsp.2
+          simp only [List.length_cons, hyl] at this
+          rw [show o + sign.length + 2 + zs.length + 1 + 18 = o + sign.length + 2 + zs.length + (18 + 1) by omega]
+          exact this
+        rw [afterSign_small_cut c e _ (o + sign.length) zs g1 ys he hz hg1 hys hyl hKu]
+        rw [hyl]
+        have hKd : AllDigits (g1 :: ys) := fun y hy => hG y (by
+          rcases List.mem_cons.1 hy with h | h
+          · subst h; simp
+          · simp [h])
+        have hK18 := decVal_ge g1 ys hg1
+        rw [hyl] at hK18
+        obtain ⟨t1, t2⟩ := decVal_trunc (g1 :: ys) R hR
+        simp only [List.length_append] at hEPu2 hQ2
+        have := glueD c e (decide (sign = [45])) (o + sign.length + 2 + zs.length + 1 + 18)
+          (o + sign.length + 2 + zs.length) true (o + sign.length + 1) (g1 :: ys) g1 ys R EP es ks 19
+          (19 + zs.length) he rfl hg1 hKd (by simp; omega) (by omega) hR hRu hEP
+          (by rw [show o + sign.length + 2 + zs.length + 1 + 18 + R.length =
+                o + sign.length + 2 + zs.length + 1 + (ys.length + R.length) by omega]; exact hEPu2)
+          (by omega)
+          (by simp only [b2n, Bool.not_true, Bool.false_and, Bool.false_eq_true, if_false]
+              rw [sub32_sub32 _ _ 0 (by omega) (by omega)]; omega)
+          (by simp only [if_true]
+              rw [sub32_sub32 _ _ 1 (by omega) (by omega), add32_eq _ _ (by omega)]; omega)
+          (by omega)
+          (Or.inr ⟨Nat.le_trans (by decide) hK18, trunc_rel_of_abs _ _ _ (Nat.le_trans (by decide) hK18) t2⟩)
+        have e1 : 19 + zs.length + R.length = zs.length + (g1 :: (ys ++ R)).length := by simp; omega
+        rw [e1] at this
+        simpa [List.append_assoc] using this
 
 end Qentem.Props.C09
